@@ -16,7 +16,15 @@ def exec_route(spec, env):
     """mode 'route': build spec['d'], optional warm-up operations at a second point, then one route."""
     sm, E = rt.ns()
     memo = {}
-    e = rt.build(spec["d"], env, memo)
+    if spec.get("may_reject"):
+        # a parameter is an unconstrained solver variable: on the paths where the constructor rejects it there is no expression to talk about
+        box = {}
+        o = rt.outcome(lambda: box.setdefault("e", rt.build(spec["d"], env, memo)) and 0)
+        if o["kind"] != "value":
+            return [{"kind": "rejected", "msg": o["kind"]}]
+        e = box["e"]
+    else:
+        e = rt.build(spec["d"], env, memo)
     vs = rt.variables_of(spec["d"])
     supplied = spec.get("supplied", vs)
     outs = []
@@ -37,7 +45,10 @@ def exec_route(spec, env):
         elif r == "normalize":
             o = rt.outcome(lambda: tgt._normalize())
         else:
-            pt = rt.make_point(coords(spec.get("pre_supplied", rt.variables_of(spec["d"])), env, pname + "_"))
+            if pname == "":
+                pt = rt.make_point(coords(supplied, env))          # an equal but separately built main point (possibly incomplete)
+            else:
+                pt = rt.make_point(coords(spec.get("pre_supplied", rt.variables_of(spec["d"])), env, pname + "_"))
             o = rt.run_route(r, tgt, spec.get("var"), pt)
         outs.append(o)
     p = rt.make_point(coords(supplied, env))
